@@ -146,6 +146,18 @@ func runC06(c *Ctx) {
 		mt := resultOf(ct, 0)
 		isMT := vOrigins(oIsValue(mt))
 		c.obI("R06.1", ct, "parse-under-HasBody", guardedBy(ct, nil, hasBody), "the gate applies only to requests that carry a body", "content type parsed without the HasBody test")
+		// and to ALL of them: the gate is skipped only when HasBody said no (or an earlier stage already refused the request)
+		{
+			noBody := negate(hasBody)
+			earlier := factLenPositive(vFieldLoad("rt/middleware.validation", "result", nil), true)
+			skipped := false
+			for _, r := range realReturns(f) {
+				if pathExists(f, nil, r, anyFact(noBody, earlier), isOneOf(ct)) {
+					skipped = true
+				}
+			}
+			c.obI("R06.1", ct, "gate-for-every-body", !skipped, "every request for which HasBody answers true goes through the content-type gate, whatever its method (both entry points alike)", "the gate can be skipped although the request carries a body")
+		}
 		errorRecorded(c, "R06.2", f, ct, "parse-error-recorded")
 		// admission
 		vcs := callsIn(f, "rt/middleware.validateContentType")
